@@ -258,6 +258,23 @@ CHECKS = [
              'specification and their re-implementation in vf/c16.py; '
              'RuntimeError accepted without proving that no mesh exists; '
              'Laplace convention pinned.'},
+    {'id': 'C17', 'ref': 'DESIGN.md section 3 C17',
+     'technique': 'client-boundary monitor on save/load/convert/to_file/'
+                  'from_file with an independent canonical-form reference '
+                  'model (attribute-level, not to_dict), seeded random '
+                  'composition of all registered classes and nested dicts, '
+                  'labelled hazard classes, __eq__ and public-result '
+                  'observables',
+     'text': 'Hundreds (thorough: thousands) of randomly composed payloads '
+             'covering every registered class and variant, scalars, arrays '
+             'and nested dicts are written and read in h5, npz and json, '
+             'converted between all six format pairs and passed through '
+             'to_file/from_file; the loaded object must have exactly the same '
+             'attribute-level canonical form, compare equal where __eq__ '
+             'exists, and give the same misfit/gradient/grid info.',
+     'note': 'Trusted: canonical-form extractor in vf/c17.py, numpy/h5py/'
+             'json/xarray as storage libraries. Scalars compared by kind and '
+             'value only; keys restricted to identifier-like names.'},
     {'id': 'C19', 'ref': 'DESIGN.md section 3 C19',
      'technique': 'client-boundary monitor on Simulation(layered=True) / '
                   'Model.extract_1d with an independent reference model '
